@@ -214,7 +214,7 @@ def export_network(net):
                 d[k] = v
             else:
                 raise ExportError(f"unhandled kind {kind}")
-        d["geo"] = int.from_bytes(h.digest(), "big") >> 4
+        d["geo"] = int.from_bytes(h.digest(), "big") >> 34   # 30 bits: cheap for coqc to parse
         elems.append(d)
     names = {a.name for a in attr.fields(type(net))}
     if names != set(NETWORK):
@@ -402,8 +402,10 @@ def probe_points(net, pts):
             elif isinstance(el, Shoulder):
                 tang.append([el.uid, tangent_error(el, (x, y))[:3]])
             else:
-                ls = el.laneSectionAt(v) if isinstance(el, Road) else None
-                src = ls if ls is not None else el
+                # Road.orientation -> laneGroupAt -> LaneGroup.orientation -> laneAt -> the LANE's centreline
+                grp = el.laneGroupAt(v) if isinstance(el, Road) else None
+                ln = grp.laneAt(v) if grp is not None else None
+                src = ln if ln is not None else (grp if grp is not None else el)
                 tang.append([src.uid, tangent_error(src, (x, y))[:3]])
                 rec["tang_from"] = type(src).__name__
         rec["tang"] = tang
@@ -434,7 +436,10 @@ def cache_probes(xodr, opts, digest_hex, variants):
             snet_b, map_b, o = good_snet, good_map, dict(opts)
             k = var["kind"]
             if k == "version":
-                snet_b = struct.pack("<I", var["version"]) + good_snet[4:]
+                cur = Network._currentFormatVersion()
+                v = var["version"]
+                v = cur + 1 if v == "+1" else (cur - 1 if v == "-1" else int(v))
+                snet_b = struct.pack("<I", v) + good_snet[4:]
             elif k == "digest-byte":
                 i = 4 + var["pos"]
                 snet_b = good_snet[:i] + bytes([good_snet[i] ^ var["xor"]]) + good_snet[i + 1:]
@@ -471,7 +476,7 @@ def cache_probes(xodr, opts, digest_hex, variants):
                 outcome = "error:" + type(e).__name__
             hdr = snet_b[:76]
             results.append(dict(var=var, outcome=outcome, version=(struct.unpack("<I", hdr[:4])[0] if len(hdr) >= 4 else None),
-                                hdr_len=len(hdr), file_len=len(snet_b),
+                                hdr_len=len(hdr), file_len=len(snet_b), hdr_hex=hdr.hex(),
                                 digest=hdr[4:68].hex(), optdigest=hdr[68:76].hex(),
                                 map_digest=hashlib.blake2b(map_b).hexdigest(), opts=o))
     finally:
